@@ -43,4 +43,48 @@ theorem all_wrappers_well_routed : wrappers.all wellRouted = true := by decide +
 theorem table_nonempty : 10 ≤ wrappers.length ∧
     (wrappers.any fun w => w.name == "abel.dasch.two_point_transform") = true := by decide +kernel
 
+/-! ### what the decided table means -/
+
+/-- what `sameMeaning` accepts for a forwarded name -/
+theorem sameMeaning_name (w : Wrapper) (a p : String) (h : sameMeaning w (.name a) p = true) :
+    a = p ∨ (a, p) ∈ allowedRenames ∨ (a, p) ∈ w.renames := by
+  simp only [sameMeaning, Bool.or_eq_true, beq_iff_eq, List.contains_iff_mem] at h
+  rcases h with (h | h) | h
+  · exact Or.inl h
+  · exact Or.inr (Or.inl h)
+  · exact Or.inr (Or.inr h)
+
+/-- **meaning of the decided table, keyword arguments**: in a well-routed wrapper every keyword `p = a` names a parameter the wrapped
+    function really has, and the forwarded variable is the wrapper's parameter of the same name (or a documented renaming) — a keyword
+    is never bound to a differently named variable, to a computed expression, or to a parameter that does not exist -/
+theorem wellRouted_kw (w : Wrapper) (h : wellRouted w = true) (p : String) (a : Arg) (hm : (p, a) ∈ w.kws) :
+    p ∈ w.calleeParams ∧
+      (match a with
+       | .name v => v = p ∨ (v, p) ∈ allowedRenames ∨ (v, p) ∈ w.renames
+       | .const => True
+       | .expr => False) := by
+  simp only [wellRouted, Bool.and_eq_true, List.all_eq_true] at h
+  have hk := h.1.2 (p, a) hm
+  simp only [List.contains_iff_mem] at hk
+  refine ⟨hk.1, ?_⟩
+  cases a with
+  | name v => exact sameMeaning_name w v p hk.2
+  | const => trivial
+  | expr => simp [sameMeaning] at hk
+
+/-- no parameter of the wrapped function is bound twice (by position and by keyword, or by two keywords) -/
+theorem wellRouted_no_double_binding (w : Wrapper) (h : wellRouted w = true) :
+    ((posTargets w).map (·.getD "") ++ w.kws.map (·.1)).Nodup := by
+  simp only [wellRouted, Bool.and_eq_true, List.all_eq_true, decide_eq_true_eq] at h
+  exact h.2
+
+/-- … and both hold for **every wrapper in the current source** -/
+theorem every_wrapper_kw (w : Wrapper) (hw : w ∈ wrappers) (p : String) (a : Arg) (hm : (p, a) ∈ w.kws) :
+    p ∈ w.calleeParams ∧
+      (match a with
+       | .name v => v = p ∨ (v, p) ∈ allowedRenames ∨ (v, p) ∈ w.renames
+       | .const => True
+       | .expr => False) :=
+  wellRouted_kw w (List.all_eq_true.mp all_wrappers_well_routed w hw) p a hm
+
 end PyAbel.C17W
